@@ -75,6 +75,12 @@ func Extension(opts ExtensionOpts) extensions.Extension {
 	}
 }
 
+// NewFeed implements extensions.PerFeedExtension: the elevator alerts seen so far are
+// state of a single feed.
+func (e extension) NewFeed() extensions.Extension {
+	return Extension(e.opts)
+}
+
 const (
 	// The value of the language field in the description string containing the metadata.
 	MetadataLanguage = "github.com/jamespfennell/gtfs/extensions/nyctalerts/Metadata"
